@@ -1,10 +1,12 @@
-(* ValueSemProofs.v — no sequence of copies, moves, sets and solves reaches undefined behaviour
-   (repaired code); the same statement is refuted for the sliced copy. *)
+(* ValueSemProofs.v — no sequence of copies, moves, sets and solves (with or without a change of parameter
+   set) reaches undefined behaviour in the repaired code; the same statement is refuted for the sliced copy
+   and for a Solve that does not provide missing stage vectors. *)
 From Model Require Import Base ValueSem.
+From Coq Require Import Lia.
 Local Open Scope nat_scope.
 
 Definition wf (st : list sobj) : Prop :=
-  forall i, so_live (slot st i) = true -> so_tmp (slot st i) = TDerived.
+  forall i, so_live (slot st i) = true -> exists nk, so_tmp (slot st i) = TDerived nk.
 
 Lemma slot_upd_eq st i x : i < length st -> slot (upd i x st) i = x.
 Proof. intros; unfold slot; apply nth_upd_eq; assumption. Qed.
@@ -13,7 +15,7 @@ Proof. intros; unfold slot; apply nth_upd_neq; assumption. Qed.
 Lemma slot_upd st i j x : slot (upd i x st) j = if (i =? j) && (i <? length st) then x else slot st j.
 Proof. unfold slot. apply nth_upd. Qed.
 
-Lemma wf_upd st i x : wf st -> (so_live x = true -> so_tmp x = TDerived) -> wf (upd i x st).
+Lemma wf_upd st i x : wf st -> (so_live x = true -> exists nk, so_tmp x = TDerived nk) -> wf (upd i x st).
 Proof.
   intros H Hx k. rewrite slot_upd. destruct ((i =? k) && (i <? length st)); [exact Hx|apply H].
 Qed.
@@ -21,45 +23,72 @@ Qed.
 Lemma live_of_guard (i j : nat) (b : bool) : (i =? j) || negb b = false -> b = true.
 Proof. intros E. apply Bool.orb_false_iff in E. destruct E as [_ E]. apply Bool.negb_false_iff in E. exact E. Qed.
 
-Lemma vstep_fixed_wf st o : wf st -> wf (fst (vstep copy_fixed st o)) /\ snd (vstep copy_fixed st o) <> TkUB.
+(* a solve on a live State of a well-formed store never fails when Solve provides missing stage vectors *)
+Lemma solve_on_fixed st i m : wf st -> so_live (slot st i) = true ->
+  exists st', solve_on true st i m = Some st' /\ wf st'.
 Proof.
-  intros H. destruct o; cbn [vstep copy_fixed];
+  intros H Hl. destruct (H i Hl) as [nk E]. unfold solve_on. rewrite E.
+  destruct (m <=? nk).
+  - exists st. split; [reflexivity | exact H].
+  - eexists. split; [reflexivity|]. apply wf_upd; [exact H|]. intros _. cbn. eauto.
+Qed.
+
+Lemma vstep_fixed_wf vs o : wf (fst vs) ->
+  wf (fst (fst (vstep copy_fixed true vs o))) /\ snd (vstep copy_fixed true vs o) <> TkUB.
+Proof.
+  destruct vs as [st stages]. cbn [fst]. intros H.
+  destruct o; cbn [vstep copy_fixed fst snd];
     try (destruct ((i =? j) || negb (so_live (slot st j))) eqn:E; cbn [fst snd];
          [split; [assumption|discriminate]|]; apply live_of_guard in E); cbn [fst snd].
-  - split; [apply wf_upd; auto|discriminate].
+  - (* get *) split; [apply wf_upd; [assumption | intros _; cbn; eauto] | discriminate].
   - split; [apply wf_upd; auto; intros _; apply H; exact E|discriminate].
   - split; [apply wf_upd; auto; intros _; apply H; exact E|discriminate].
   - split; [|discriminate]. apply wf_upd; [apply wf_upd; auto; intros _; apply H; exact E|cbn; intros X; discriminate X].
   - split; [|discriminate]. apply wf_upd; [apply wf_upd; auto; intros _; apply H; exact E|cbn; intros X; discriminate X].
-  - destruct (so_live (slot st i)) eqn:E; cbn [fst snd]; split; try assumption; try discriminate.
+  - (* set *) destruct (so_live (slot st i)) eqn:E; cbn [fst snd]; split; try assumption; try discriminate.
     apply wf_upd; auto. intros _. apply H. exact E.
-  - destruct (so_live (slot st i)) eqn:E; cbn [fst snd]; [|split; [assumption|discriminate]].
-    rewrite (H i E). cbn [fst snd]. split; [assumption|discriminate].
+  - (* solve *) destruct (so_live (slot st i)) eqn:E; cbn [fst snd]; [|split; [assumption|discriminate]].
+    destruct (solve_on_fixed st i stages H E) as [st' [-> Hwf]]. cbn [fst snd]. split; [assumption|discriminate].
   - split; [assumption|discriminate].
+  - (* solve with another parameter set *)
+    destruct (so_live (slot st i)) eqn:E; cbn [fst snd]; [|split; [assumption|discriminate]].
+    destruct (solve_on_fixed st i m H E) as [st' [-> Hwf]]. cbn [fst snd]. split; [assumption|discriminate].
 Qed.
 
 (* every operation sequence, of any length, from any well-formed store *)
-Theorem value_semantics_no_ub st ops : wf st -> ~ In TkUB (vrun copy_fixed st ops).
+Theorem value_semantics_no_ub vs ops : wf (fst vs) -> ~ In TkUB (vrun copy_fixed true vs ops).
 Proof.
-  revert st; induction ops as [|o ops IH]; intros st H; cbn [vrun]; [tauto|].
-  destruct (vstep_fixed_wf st o H) as [Hwf Hne].
-  destruct (vstep copy_fixed st o) as [st' tk]. cbn [fst snd] in *.
-  destruct tk; try (intros [E|Hin]; [discriminate|exact (IH st' Hwf Hin)]).
+  revert vs; induction ops as [|o ops IH]; intros vs H; cbn [vrun]; [tauto|].
+  destruct (vstep_fixed_wf vs o H) as [Hwf Hne].
+  destruct (vstep copy_fixed true vs o) as [vs' tk]. cbn [fst snd] in *.
+  destruct tk; try (intros [E|Hin]; [discriminate|exact (IH vs' Hwf Hin)]).
   contradiction.
 Qed.
 
-Lemma wf_store0 n : wf (store0 n).
+Lemma wf_store0 n stages : wf (fst (store0 n stages)).
 Proof.
-  intros i Hl. unfold slot, store0 in *.
+  intros i Hl. unfold slot, store0 in *. cbn [fst] in *.
   destruct (Nat.lt_ge_cases i n); [rewrite nth_repeat in Hl|rewrite nth_overflow in Hl by (rewrite repeat_length; lia)];
     discriminate.
 Qed.
 
 (* a solve reports the data of its own State: a set on another State never changes it *)
-Theorem solve_reads_own_data st i : so_live (slot st i) = true -> wf st ->
-  snd (vstep copy_fixed st (OSolve i)) = TkSolve (so_data (slot st i)).
-Proof. intros Hl H. cbn [vstep]. rewrite Hl, (H i Hl). reflexivity. Qed.
+Theorem solve_reads_own_data st stages i : so_live (slot st i) = true -> wf st ->
+  snd (vstep copy_fixed true (st, stages) (OSolve i)) = TkSolve (so_data (slot st i)).
+Proof.
+  intros Hl H. cbn [vstep fst snd]. rewrite Hl.
+  destruct (solve_on_fixed st i stages H Hl) as [st' [-> _]]. reflexivity.
+Qed.
 
-(* the code before the repair: GetState; copy; Solve(copy) is undefined behaviour *)
-Theorem copy_then_solve_refuted : In TkUB (vrun copy_sliced (store0 4) [OGet 0; OCopyC 1 0; OSolve 1]).
+(* the code before the first repair: GetState; copy; Solve(copy) is undefined behaviour *)
+Theorem copy_then_solve_refuted : In TkUB (vrun copy_sliced true (store0 4 3) [OGet 0; OCopyC 1 0; OSolve 1]).
 Proof. vm_compute. auto. Qed.
+
+(* the code before the second repair: a State created for a three-stage parameter set, solved with a six-stage one *)
+Theorem more_stages_than_vectors_refuted : In TkUB (vrun copy_fixed false (store0 4 3) [OGet 0; OPSolve 0 6]).
+Proof. vm_compute. auto. Qed.
+(* ... also through the two-argument Solve of another, older State once the solver's set has changed *)
+Theorem older_state_after_parameter_change_refuted :
+  vrun copy_fixed false (store0 4 6) [OGet 1; OPSolve 1 2; OGet 0; OPSolve 1 6; OSolve 0]
+  = [TkGet; TkSolve 1; TkGet; TkSolve 1; TkUB].
+Proof. vm_compute. reflexivity. Qed.
